@@ -122,7 +122,7 @@ def ev? (s : String) : Option Ev :=
 
 def showPhase : Phase → String
   | .undecided => "undecided" | .aborted => "aborted" | .intercepted => "intercepted"
-  | .connecting => "connecting" | .relay => "relay" | .done => "done"
+  | .connecting => "connecting" | .relay => "relay" | .done => "done" | .failed => "failed"
 
 def showOut : Out → String
   | .openServer => "open"
